@@ -1,10 +1,49 @@
 #!/bin/bash
 # usage: run.sh <property-id> [quick|thorough]
 # Decides one property from the source of /repo's current working tree.
+# thorough: three build configurations, deeper loop bounds, and the checker's
+# own positive examples (every stored variant that breaks this property must
+# be reported on a scratch copy; /repo itself is never modified).
 cd "$(dirname "$0")" || exit 2
 export GOFLAGS=-mod=mod GOPROXY=off GOSUMDB=off GOTOOLCHAIN=local GOCACHE=${GOCACHE:-/root/.cache/go-build}
 unset GOWORK
 if [ ! -x bin/ppcheck ] || [ -n "$(find ppcheck -name '*.go' -newer bin/ppcheck 2>/dev/null | head -1)" ]; then
   (cd ppcheck && go build -o ../bin/ppcheck .) || { echo "build of ppcheck failed"; exit 2; }
 fi
-exec bin/ppcheck -p "$1" -tier "${2:-${VERIF_TIER:-quick}}" -verif "$(pwd)" -repo "${PPCHECK_REPO:-/repo}"
+P="$1"; TIER="${2:-${VERIF_TIER:-quick}}"; REPO="${PPCHECK_REPO:-/repo}"
+bin/ppcheck -p "$P" -tier "$TIER" -verif "$(pwd)" -repo "$REPO"
+rc=$?
+if [ "$TIER" != thorough ] || [ $rc -ne 0 ]; then exit $rc; fi
+# --- positive examples (vacuity guard): only meaningful on the unmodified tree
+if ! git -C "$REPO" diff --quiet HEAD -- . 2>/dev/null; then
+  echo "SELFTEST skipped: $REPO has local modifications (variants are diffs against HEAD)"; exit 0
+fi
+n=0; fired=0; missed=""
+for d in mutants/* seeded/*; do
+  [ -f "$d/meta.json" ] || continue
+  props=$(python3 -c "import json,sys;m=json.load(open('$d/meta.json'));print(m.get('prop') or m.get('breaks_property') or '')")
+  kind=$(python3 -c "import json,sys;m=json.load(open('$d/meta.json'));print(m.get('kind','break'))")
+  echo " $props " | grep -q " $P " || continue
+  S=$(mktemp -d /dev/shm/ppself.XXXXXX)
+  git -C "$REPO" archive --format=tar HEAD | tar -x -C "$S"
+  if ! (cd "$S" && git init -q . && git apply --whitespace=nowarn "$OLDPWD/$d/patch.diff" 2>/dev/null); then rm -rf "$S"; continue; fi
+  out=$(bin/ppcheck -repo "$S" -verif "$(pwd)" -p "$P" -no-evidence 2>&1)
+  rm -rf "$S"
+  n=$((n+1))
+  if [ "$kind" = break ]; then
+    if echo "$out" | grep -q "^VIOLATION property=$P"; then fired=$((fired+1)); else missed="$missed $(basename $d)"; fi
+  else
+    if echo "$out" | grep -q "^VIOLATION property=$P"; then missed="$missed $(basename $d)(false-alarm)"; else fired=$((fired+1)); fi
+  fi
+done
+python3 - "$P" "$n" "$fired" "$missed" <<'PY'
+import json,sys
+p,n,f,missed=sys.argv[1],int(sys.argv[2]),int(sys.argv[3]),sys.argv[4].split()
+path='evidence/%s.json'%p
+e=json.load(open(path))
+e['coverage']['selftest']={'variants_of_this_property':n,'behaved_as_expected':f,'unexpected':missed,'what':'stored single-edit variants (mutants/, seeded/) applied to a scratch copy: breaking ones must be reported, behaviour-preserving ones must stay silent'}
+json.dump(e,open(path,'w'),indent=1)
+PY
+echo "SELFTEST property=$P variants=$n as-expected=$fired unexpected:$missed"
+[ -z "$missed" ] || { echo "SELFTEST-FAILED: the checker did not behave as expected on its own positive examples"; exit 2; }
+exit 0
